@@ -26,7 +26,8 @@ def _spec(draw, tier):
 
 
 def strategy(tier):
-    return st.fixed_dictionaries({'spec': _spec(tier), 'vseed': ints(0, 9999)})
+    return st.fixed_dictionaries({'spec': st.one_of(_spec(tier), _spec(tier), _spec(tier), specs.excl_pattern_spec()),
+                                  'vseed': ints(0, 9999)})
 
 
 def fixed_cases(tier):
